@@ -47,7 +47,15 @@ def build_u(tree, spelling=0):
         items = [build_u(t, spelling) for t in tree[1]]
         return tuple(items) if spelling in (1, 3) else items
     if k == 'd':
-        d = {kk: build_u(t, spelling) for kk, t in tree[1]}
+        items = list(tree[1])
+        if spelling == 4:
+            items.reverse()            # same mapping, other insertion order
+        d = {kk: build_u(t, spelling) for kk, t in items}
+        return frozendict(d) if spelling in (1, 2) else d
+    if k == 'dk2':                     # a dict mixing a valid string key with an invalid key
+        d = {'ok': build_u(tree[2], spelling), tree[1]: build_u(tree[2], spelling)}
+        if spelling == 4:
+            d = dict(reversed(list(d.items())))
         return frozendict(d) if spelling in (1, 2) else d
     if k == 't':
         return TYPES[tree[1]](build_u(tree[2], spelling))
@@ -64,6 +72,7 @@ def mutate_positions(tree):
                 yield name, ('u', bad)
             for name, key in BAD_KEYS:
                 yield name, ('dk', key, t)
+                yield name + '+str-key', ('dk2', key, t)
         elif k == 'l':
             for i, sub in enumerate(t[1]):
                 for name, m in rec(sub):
@@ -114,8 +123,8 @@ def check_supported(args):
     except BaseException as e:  # noqa
         bad('supported-rejected', f'construction raised {type(e).__name__}: {e}')
         return out
-    for sp in (2, 3):
-        # mixed spellings: mutable lists inside frozendicts, dicts inside tuples
+    for sp in (2, 3, 4):
+        # mixed spellings: mutable lists inside frozendicts, dicts inside tuples; 4 = dicts built in the reverse insertion order
         try:
             tm = TYPES[tn](p=build_u(tree, sp))
         except BaseException as e:  # noqa
@@ -205,7 +214,7 @@ def check_supported(args):
 def check_unsupported(args):
     tn, name, tree = args
     out = []
-    for sp in (0, 1, 2):     # the unsupported value may sit inside a dict, a frozendict, a list or a tuple
+    for sp in (0, 1, 2, 4):     # the unsupported value may sit inside a dict, a frozendict, a list or a tuple; 4 = reversed key order
         try:
             t = TYPES[tn](p=build_u(tree, sp))
         except TaskError:
@@ -223,6 +232,8 @@ def describe_u(tree):
         return repr(tree[1])
     if k == 'dk':
         return '{' + f'{tree[1]!r}: {describe_u(tree[2])}' + '}'
+    if k == 'dk2':
+        return '{' + f"'ok': {describe_u(tree[2])}, {tree[1]!r}: {describe_u(tree[2])}" + '}'
     if k == 's':
         return repr(tree[1])
     if k == 'l':
@@ -236,7 +247,7 @@ def tree_size_u(tree):
     k = tree[0]
     if k in ('u', 's'):
         return 1
-    if k == 'dk':
+    if k in ('dk', 'dk2'):
         return 1 + tree_size_u(tree[2])
     if k == 'l':
         return 1 + sum(tree_size_u(t) for t in tree[1])
@@ -284,6 +295,39 @@ def cross_check(tier: str, path: str):
     print(json.dumps(out))
 
 
+def check_equal_params():
+    """Tasks built from parameters that compare equal (1 == 1.0 == True, enum-valued strings) are equal
+    with equal hash; a parameterless task type survives every pickle protocol."""
+    out = []
+    groups = [[1, 1.0, True], [0, 0.0, False], ['RED', A.StrEnumLike.RED], [(1, 2), [1.0, 2.0]], [{'a': 1, 'b': 0}, {'b': False, 'a': 1.0}]]
+    for g in groups:
+        for wrap in (lambda v: v, lambda v: [v], lambda v: {'k': v}, lambda v: A.Leaf(v)):
+            ts = [A.Foo(p=wrap(v)) for v in g]
+            for a in ts[1:]:
+                try:
+                    if not (ts[0] == a) or hash(ts[0]) != hash(a) or a not in {ts[0]}:
+                        out.append(('equal-params-unequal', f'{ts[0]!r} and {a!r} are built from equal parameters but are not equal with equal hash', 2))
+                except BaseException as e:  # noqa
+                    out.append(('equal-params-unequal', f'comparing {ts[0]!r} and {a!r} raised {type(e).__name__}: {e}', 2))
+    for proto in range(0, pickle.HIGHEST_PROTOCOL + 1):
+        for mk, name in ((lambda: A.Empty(), 'Empty()'), (lambda: A.HoldsEmpty(p=A.Empty()), 'HoldsEmpty(p=Empty())'),
+                         (lambda: A.HoldsEmpty(p=[A.Empty(), {'k': A.Empty()}]), 'HoldsEmpty(p=[Empty(), {k: Empty()}])')):
+            t = mk()
+            try:
+                c = pickle.loads(pickle.dumps(t, protocol=proto))
+            except BaseException as e:  # noqa
+                out.append(('pickle-raised', f'{name} protocol {proto}: {type(e).__name__}: {e}', 1))
+                continue
+            try:
+                ok = (c == t) and hash(c) == hash(t) and c.cache_key == t.cache_key and is_task(c) and \
+                    [canon(x) for x in get_direct_dependencies(c)] == [canon(x) for x in get_direct_dependencies(t)]
+            except BaseException as e:  # noqa
+                ok = False
+            if not ok:
+                out.append(('copy-unequal', f'{name} protocol {proto}: the copy is not an equal task with the same key and dependencies', 1))
+    return out
+
+
 def _work(item):
     silence_labtech()
     kind, batch = item
@@ -326,6 +370,8 @@ def run(tier: str, seed: int) -> Result:
     for kind, n, res in pmap(_work, work):
         for key, msg, size in res:
             viols.append(Violation('C15', key, msg, {'tier': tier, 'clause': key, 'msg': msg}, size=size))
+    for key, msg, size in check_equal_params():
+        viols.append(Violation('C15', key, msg, {'tier': tier, 'clause': key, 'msg': msg}, size=size))
     # cross-interpreter slice: pickled in a fresh interpreter under one hash seed, loaded under another
     import os, subprocess, sys, tempfile, shutil
     tmpd = tempfile.mkdtemp(prefix='c15x_')
